@@ -6,7 +6,7 @@
 (*    "def0": {family: {leaf: val}},  "init": <state>,                                                       *)
 (*    "kids": {obj: [obj]} (children of the collections among the objects),                                  *)
 (*    "steps": [{"tid", "op", "tgt", "src", "l", "v", "kw": {leaf: val}, "badname": bool, "notation",        *)
-(*               "asg": {leaf: val}, "rec": bool, "argchanged": bool (SetKids),                              *)
+(*               "asg": {leaf: val}, "rec": bool (SetKids), "tgts": [obj] (SetObjs), "argchanged": bool,     *)
 (*               "outcome": "ok" | "raise", "post": <state>, "res": {obj: {leaf: val}}, "reserr"}]}          *)
 (*   <state> = {"objVal": {obj: {leaf: val}}, "def": {family: {leaf: val}}}                                  *)
 (* Abstract leaves: "l" (the real leaf under test), "m" (a sibling leaf), "rest" (digest of all other real   *)
@@ -22,7 +22,7 @@ Seqify(s) == [i \in 1..Len(s) |-> s[i]]
 CxOf(e) == [chain |-> [o \in DOMAIN e.clsof |-> ClassChain[e.clsof[o]]], has |-> e.has, fhas |-> e.fhas, def0 |-> e.def0,
             kids |-> [o \in DOMAIN e.kids |-> Seqify(e.kids[o])]]
 CallOf(s) == [op |-> s.op, tgt |-> s.tgt, src |-> s.src, l |-> s.l, v |-> s.v, kw |-> s.kw, badname |-> s.badname,
-              asg |-> s.asg, rec |-> s.rec]
+              asg |-> s.asg, rec |-> s.rec, tgts |-> {s.tgts[i] : i \in DOMAIN s.tgts}]
 ResLeaves == {"l", "m"}
 
 \* copy() documents that it gives the copy a new label (suffix): the label is the one leaf a copy does not carry
@@ -52,13 +52,16 @@ Verdict(pre, cx, carries, chkfresh, s) ==
      ELSE IF call.op = "SetDef" /\ r.ok /\ post.def[call.tgt][call.l] # call.v THEN <<"C20", "DefLastWins">>
      ELSE IF call.op = "SetDef" /\ r.ok /\ ~OtherDefLeavesKept(pre, post, call.tgt, call.l) THEN <<"C20", "LeakDefLeaf">>
      ELSE IF call.op = "SetDef" /\ r.ok /\ ~OtherFamsKept(pre, post, call.tgt) THEN <<"C20", "LeakFamily">>
+     ELSE IF call.op = "SetObjs" /\ r.ok /\ (\E o \in call.tgts : post.objVal[o][call.l] # call.v) THEN <<"C20", "LastWins">>
+     ELSE IF call.op = "SetObjs" /\ r.ok /\ (\E o \in call.tgts : ~OtherLeavesKept(pre, post, o, call.l)) THEN <<"C20", "LeakLeaf">>
+     ELSE IF call.op = "SetObjs" /\ r.ok /\ (\E o \in Objs(pre) \ call.tgts : post.objVal[o] # pre.objVal[o]) THEN <<"C20", "LeakObject">>
      ELSE IF call.op = "SetKids" /\ r.ok /\ ~KidsGot(post, cx, Members(cx, call.tgt, call.rec), call.asg) THEN <<"C20", "KidsLastWins">>
      ELSE IF call.op = "SetKids" /\ r.ok /\ ~KidsOtherLeavesKept(pre, post, cx, Members(cx, call.tgt, call.rec), call.asg) THEN <<"C20", "LeakLeaf">>
      ELSE IF call.op = "SetKids" /\ r.ok /\ ~NonMembersKept(pre, post, Members(cx, call.tgt, call.rec)) THEN <<"C20", "LeakObject">>
-     ELSE IF call.op = "SetKids" /\ s.argchanged THEN <<"C20", "CallerDictChanged">>   \* the style dictionary handed in is the caller's
+     ELSE IF call.op \in {"SetKids", "SetObjs", "SetObj"} /\ s.argchanged THEN <<"C20", "CallerDictChanged">>   \* the style dictionary handed in is the caller's
      ELSE IF call.op = "Reset" /\ post.def # cx.def0 THEN <<"C20", "ResetRestores">>
      ELSE IF call.op = "Copy" /\ ~OtherObjsKept(pre, post, call.tgt) THEN <<"C20", "LeakObject">>
-     ELSE IF call.op \in {"SetObj", "Copy", "Show", "SetKids"} /\ post.def # pre.def THEN <<"C20", "LeakDefaults">>
+     ELSE IF call.op \in {"SetObj", "SetObjs", "Copy", "Show", "SetKids"} /\ post.def # pre.def THEN <<"C20", "LeakDefaults">>
      ELSE IF call.op \in {"SetDef", "Reset", "Show"} /\ post.objVal # pre.objVal THEN <<"C20", "LeakIntoObject">>
      ELSE IF \E o \in DOMAIN s.res : \E l \in ResLeaves : s.res[o][l] # Resolve(post, cx, o, l, IF r.ok THEN s.kw ELSE [k \in DOMAIN s.kw |-> Unset])
           THEN <<"C20", "Precedence">>
